@@ -10,9 +10,11 @@ for p in props:
     up = os.path.join(H, "units", pid, "unit.json")
     if os.path.exists(up) and not json.load(open(up)).get("disabled"):
         u = json.load(open(up))
-        backs = sorted({g.get("backend", "kani") for g in u["groups"]})
+        backs = sorted({g.get("backend", "kani") for g in u["groups"] if not g.get("disabled")})
         kinds = {}
         for g in u["groups"]:
+            if g.get("disabled"):
+                continue
             for o in g["obligations"]:
                 kinds[o["kind"]] = kinds.get(o["kind"], 0) + 1
         level = u.get("level", "proof")
